@@ -428,4 +428,9 @@ def run(rep, db, tier, seed):
         c12_lifecycle.run(rep, db, tier)
     except Exception as u:
         rep.add(Obligation('connection life cycle', 'inconclusive', f'{type(u).__name__}: {u}'[:600]))
+    try:
+        from props import c12_preface
+        c12_preface.run(rep, db, tier)
+    except Exception as u:
+        rep.add(Obligation('connection preface', 'inconclusive', f'{type(u).__name__}: {u}'[:600]))
     rep.extra['explanation'] = 'acceptance condition of the four handshake functions and one-step pool obligations on the real MIR, for all symbolic handshake messages / pool states within the bound'
